@@ -73,6 +73,15 @@ def work(item):
             check_term(term, part, configs=configs)
             part.c['scaled_terms'] += 1
         return part
+    if item[0] == 'wrap':
+        part = core.Part()
+        a = D.alphabet()
+        with core.deadline(3600):
+            for term in itertools.islice(a.gen(item[1]), item[2], item[3]):
+                for v in docalg.wrap_variants(term, 'rctx'):
+                    check_term(v, part)
+                    part.c['reentrant_contextual_terms'] += 1
+        return part
     n, lo, hi = item
     part = core.Part()
     a = D.alphabet()
@@ -105,7 +114,8 @@ def run(tier, seed):
                 'the reference linearisation; part 2: every corpus value whose unbounded rendering is one '
                 'line, at widths/ribbons L..L+2, 2L, 200; non-trivial = terms with a checked broken group '
                 'plus one-line values that do break at L-1',
-        'spaces': desc, 'terms': a.c['terms'], 'document_states': nstates_docs,
+        'spaces': desc, 'terms': a.c['terms'], 'reentrant_contextual_terms': a.c['reentrant_contextual_terms'],
+        'document_states': nstates_docs,
         'broken_group_checks': a.c['broken_group_checks'],
         'justifications': {k[5:]: v for k, v in a.c.items() if k.startswith('just:')},
         'values_part': vdesc,
